@@ -235,7 +235,15 @@ func genC06(t *rapid.T) *c06Case {
 				if chain[pos+1] == chain[pos] && n(2, "localhop") == 0 {
 					target = "#/$defs/" + hopName(pos+1)
 				}
-				switch n(4, "hopkind") {
+				switch n(5, "hopkind") {
+				case 4:
+					// both keywords in one object: each is applied; the $dynamicRef (a pointer, hence
+					// lexical) goes to a schema of this resource that accepts everything
+					if !holder.Has("anything") {
+						holder.Set("anything", jv.ObjV())
+					}
+					hop = jv.ObjV(jv.Member{K: "$dynamicRef", V: jv.StrV("#/$defs/anything")}, jv.Member{K: "$ref", V: jv.StrV(target)})
+					path.Hops = append(path.Hops, "$ref+$dynamicRef")
 				case 0:
 					hop = jv.ObjV(jv.Member{K: "$dynamicRef", V: jv.StrV(target)})
 					path.Hops = append(path.Hops, "$dynamicRef(pointer)")
